@@ -13,7 +13,7 @@ theorem spans_of_sub {n : Node} {L : List Node} (h : sub n = n :: L) :
   unfold Spans; rw [h]; exact List.forall_mem_cons
 
 theorem spanExactB_iff (n : Node) : spanExactB s n = true ↔ SpanExact s n := by
-  cases n <;> simp [spanExactB, SpanExact]
+  simp [spanExactB]
 
 theorem spansL_nil : SpansL s [] := by intro m hm; cases hm
 
@@ -36,54 +36,53 @@ theorem spansL_iff (l : List Node) : SpansL s l ↔ ∀ n ∈ l, Spans s n := by
 
 /-! ### leaves -/
 
-theorem spans_boolean (b v) : Spans s (.boolean b v) := by intro m hm; cases hm with | head => trivial | tail _ h => cases h
-theorem spans_id (b v) : Spans s (.id b v) := by intro m hm; cases hm with | head => trivial | tail _ h => cases h
-theorem spans_number (b r v) : Spans s (.number b r v) := by intro m hm; cases hm with | head => trivial | tail _ h => cases h
-theorem spans_string (b r v m' f) : Spans s (.string b r v m' f) := by
-  intro m hm; cases hm with | head => trivial | tail _ h => cases h
-theorem spans_continue (b) : Spans s (.continue_ b) := by intro m hm; cases hm with | head => trivial | tail _ h => cases h
-theorem spans_break (b) : Spans s (.break_ b) := by intro m hm; cases hm with | head => trivial | tail _ h => cases h
-theorem spans_symbol (b v) : Spans s (.symbol b v) := by intro m hm; cases hm with | head => trivial | tail _ h => cases h
-theorem spans_empty (b) : Spans s (.empty b) := by intro m hm; cases hm with | head => trivial | tail _ h => cases h
+theorem spans_leaf {n : Node} (h : sub n = [n]) : Spans s n ↔ SpanExact s n := by
+  unfold Spans; rw [h]; simp
+
+theorem spans_boolean (b v) : Spans s (.boolean b v) ↔ NoEnd b := spans_leaf rfl
+theorem spans_id (b v) : Spans s (.id b v) ↔ NoEnd b := spans_leaf rfl
+theorem spans_number (b r v) : Spans s (.number b r v) ↔ NoEnd b := spans_leaf rfl
+theorem spans_string (b r v m' f) : Spans s (.string b r v m' f) ↔ NoEnd b := spans_leaf rfl
+theorem spans_continue (b) : Spans s (.continue_ b) ↔ NoEnd b := spans_leaf rfl
+theorem spans_break (b) : Spans s (.break_ b) ↔ NoEnd b := spans_leaf rfl
+theorem spans_symbol (b v) : Spans s (.symbol b v) ↔ NoEnd b := spans_leaf rfl
+theorem spans_empty (b) : Spans s (.empty b) ↔ NoEnd b := spans_leaf rfl
+
+theorem noEnd_ofTok (t : Token) : NoEnd (Base.ofTok t) := ⟨rfl, rfl⟩
+theorem noEnd_at (l c : Nat) : NoEnd (Base.at l c) := ⟨rfl, rfl⟩
 
 /-! ### inner nodes -/
 
 theorem spans_args (b pos commas colons keys vals oe) :
     Spans s (.args b pos commas colons keys vals oe) ↔
-      SpansL s pos ∧ SpansL s commas ∧ SpansL s colons ∧ SpansL s keys ∧ SpansL s vals := by
+      NoEnd b ∧ oe = false ∧ SpansL s pos ∧ SpansL s commas ∧ SpansL s colons ∧ SpansL s keys ∧ SpansL s vals := by
   rw [spans_of_sub (L := subL pos ++ subL commas ++ subL colons ++ subL keys ++ subL vals) rfl]
-  have : SpanExact s (.args b pos commas colons keys vals oe) := trivial
-  simp only [this, true_and, List.forall_mem_append, SpansL, and_assoc]
+  simp only [SpanExact, Node.base, List.forall_mem_append, SpansL, and_assoc]
 
 theorem spans_array (b l a r) :
     Spans s (.array b l a r) ↔ SpanExact s (.array b l a r) ∧ Spans s l ∧ Spans s a ∧ Spans s r := by
   rw [spans_of_sub (L := sub l ++ sub a ++ sub r) rfl]
   simp only [List.forall_mem_append, Spans, and_assoc]
 
-theorem spans_dict (b l a r) : Spans s (.dict b l a r) ↔ Spans s l ∧ Spans s a ∧ Spans s r := by
+theorem spans_dict (b l a r) : Spans s (.dict b l a r) ↔ SpanExact s (.dict b l a r) ∧ Spans s l ∧ Spans s a ∧ Spans s r := by
   rw [spans_of_sub (L := sub l ++ sub a ++ sub r) rfl]
-  have : SpanExact s (.dict b l a r) := trivial
-  simp only [this, true_and, List.forall_mem_append, Spans, and_assoc]
+  simp only [List.forall_mem_append, Spans, and_assoc]
 
-theorem spans_binop (k b l o r) : Spans s (.binop k b l o r) ↔ Spans s l ∧ Spans s o ∧ Spans s r := by
+theorem spans_binop (k b l o r) : Spans s (.binop k b l o r) ↔ NoEnd b ∧ Spans s l ∧ Spans s o ∧ Spans s r := by
   rw [spans_of_sub (L := sub l ++ sub o ++ sub r) rfl]
-  have : SpanExact s (.binop k b l o r) := trivial
-  simp only [this, true_and, List.forall_mem_append, Spans, and_assoc]
+  simp only [SpanExact, Node.base, List.forall_mem_append, Spans, and_assoc]
 
-theorem spans_unop (k b o v) : Spans s (.unop k b o v) ↔ Spans s o ∧ Spans s v := by
+theorem spans_unop (k b o v) : Spans s (.unop k b o v) ↔ NoEnd b ∧ Spans s o ∧ Spans s v := by
   rw [spans_of_sub (L := sub o ++ sub v) rfl]
-  have : SpanExact s (.unop k b o v) := trivial
-  simp only [this, true_and, List.forall_mem_append, Spans, and_assoc]
+  simp only [SpanExact, Node.base, List.forall_mem_append, Spans, and_assoc]
 
-theorem spans_codeblock (b pre lines) : Spans s (.codeblock b pre lines) ↔ SpansL s lines := by
+theorem spans_codeblock (b pre lines) : Spans s (.codeblock b pre lines) ↔ NoEnd b ∧ SpansL s lines := by
   rw [spans_of_sub (L := subL lines) rfl]
-  have : SpanExact s (.codeblock b pre lines) := trivial
-  simp only [this, true_and, SpansL]
+  simp only [SpanExact, Node.base, SpansL]
 
-theorem spans_index (b o l i r) : Spans s (.index b o l i r) ↔ Spans s o ∧ Spans s l ∧ Spans s i ∧ Spans s r := by
+theorem spans_index (b o l i r) : Spans s (.index b o l i r) ↔ NoEnd b ∧ Spans s o ∧ Spans s l ∧ Spans s i ∧ Spans s r := by
   rw [spans_of_sub (L := sub o ++ sub l ++ sub i ++ sub r) rfl]
-  have : SpanExact s (.index b o l i r) := trivial
-  simp only [this, true_and, List.forall_mem_append, Spans, and_assoc]
+  simp only [SpanExact, Node.base, List.forall_mem_append, Spans, and_assoc]
 
 theorem spans_method (b o d n l a r) :
     Spans s (.method b o d n l a r) ↔
@@ -97,73 +96,66 @@ theorem spans_function (b n l a r) :
   rw [spans_of_sub (L := sub n ++ sub l ++ sub a ++ sub r) rfl]
   simp only [List.forall_mem_append, Spans, and_assoc]
 
-theorem spans_assign (p b n o v) : Spans s (.assign p b n o v) ↔ Spans s n ∧ Spans s o ∧ Spans s v := by
+theorem spans_assign (p b n o v) : Spans s (.assign p b n o v) ↔ NoEnd b ∧ Spans s n ∧ Spans s o ∧ Spans s v := by
   rw [spans_of_sub (L := sub n ++ sub o ++ sub v) rfl]
-  have : SpanExact s (.assign p b n o v) := trivial
-  simp only [this, true_and, List.forall_mem_append, Spans, and_assoc]
+  simp only [SpanExact, Node.base, List.forall_mem_append, Spans, and_assoc]
 
 theorem spans_foreach (b kw vars commas colon items block endkw) :
     Spans s (.foreach b kw vars commas colon items block endkw) ↔
-      Spans s kw ∧ SpansL s vars ∧ SpansL s commas ∧ Spans s colon ∧ Spans s items ∧ Spans s block ∧
+      NoEnd b ∧ Spans s kw ∧ SpansL s vars ∧ SpansL s commas ∧ Spans s colon ∧ Spans s items ∧ Spans s block ∧
         Spans s endkw := by
   rw [spans_of_sub (L := sub kw ++ subL vars ++ subL commas ++ sub colon ++ sub items ++ sub block ++ sub endkw) rfl]
-  have : SpanExact s (.foreach b kw vars commas colon items block endkw) := trivial
-  simp only [this, true_and, List.forall_mem_append, Spans, SpansL, and_assoc]
+  simp only [SpanExact, Node.base, List.forall_mem_append, Spans, SpansL, and_assoc]
 
-theorem spans_ifnode (b kw c bl) : Spans s (.ifnode b kw c bl) ↔ Spans s kw ∧ Spans s c ∧ Spans s bl := by
+theorem spans_ifnode (b kw c bl) : Spans s (.ifnode b kw c bl) ↔ NoEnd b ∧ Spans s kw ∧ Spans s c ∧ Spans s bl := by
   rw [spans_of_sub (L := sub kw ++ sub c ++ sub bl) rfl]
-  have : SpanExact s (.ifnode b kw c bl) := trivial
-  simp only [this, true_and, List.forall_mem_append, Spans, and_assoc]
+  simp only [SpanExact, Node.base, List.forall_mem_append, Spans, and_assoc]
 
-theorem spans_elsenode (b kw bl) : Spans s (.elsenode b kw bl) ↔ Spans s kw ∧ Spans s bl := by
+theorem spans_elsenode (b kw bl) : Spans s (.elsenode b kw bl) ↔ NoEnd b ∧ Spans s kw ∧ Spans s bl := by
   rw [spans_of_sub (L := sub kw ++ sub bl) rfl]
-  have : SpanExact s (.elsenode b kw bl) := trivial
-  simp only [this, true_and, List.forall_mem_append, Spans, and_assoc]
+  simp only [SpanExact, Node.base, List.forall_mem_append, Spans, and_assoc]
 
-theorem spans_ifclause (b ifs e en) : Spans s (.ifclause b ifs e en) ↔ SpansL s ifs ∧ Spans s e ∧ Spans s en := by
+theorem spans_ifclause (b ifs e en) : Spans s (.ifclause b ifs e en) ↔ NoEnd b ∧ SpansL s ifs ∧ Spans s e ∧ Spans s en := by
   rw [spans_of_sub (L := subL ifs ++ sub e ++ sub en) rfl]
-  have : SpanExact s (.ifclause b ifs e en) := trivial
-  simp only [this, true_and, List.forall_mem_append, Spans, SpansL, and_assoc]
+  simp only [SpanExact, Node.base, List.forall_mem_append, Spans, SpansL, and_assoc]
 
 theorem spans_ternary (b c q t cl f) :
-    Spans s (.ternary b c q t cl f) ↔ Spans s c ∧ Spans s q ∧ Spans s t ∧ Spans s cl ∧ Spans s f := by
+    Spans s (.ternary b c q t cl f) ↔ NoEnd b ∧ Spans s c ∧ Spans s q ∧ Spans s t ∧ Spans s cl ∧ Spans s f := by
   rw [spans_of_sub (L := sub c ++ sub q ++ sub t ++ sub cl ++ sub f) rfl]
-  have : SpanExact s (.ternary b c q t cl f) := trivial
-  simp only [this, true_and, List.forall_mem_append, Spans, and_assoc]
+  simp only [SpanExact, Node.base, List.forall_mem_append, Spans, and_assoc]
 
-theorem spans_paren (b l i r) : Spans s (.paren b l i r) ↔ Spans s l ∧ Spans s i ∧ Spans s r := by
+theorem spans_paren (b l i r) : Spans s (.paren b l i r) ↔ SpanExact s (.paren b l i r) ∧ Spans s l ∧ Spans s i ∧ Spans s r := by
   rw [spans_of_sub (L := sub l ++ sub i ++ sub r) rfl]
-  have : SpanExact s (.paren b l i r) := trivial
-  simp only [this, true_and, List.forall_mem_append, Spans, and_assoc]
+  simp only [List.forall_mem_append, Spans, and_assoc]
 
 /-! ### `append_whitespaces` changes no extent and no child -/
 
 theorem spans_addWsBase (n : Node) (ws : List Token) : Spans s (n.addWsBase ws) ↔ Spans s n := by
   cases n <;> simp only [Node.addWsBase, Node.mapBase]
-  case boolean => simp only [spans_boolean]
-  case id => simp only [spans_id]
-  case number => simp only [spans_number]
-  case string => simp only [spans_string]
-  case continue_ => simp only [spans_continue]
-  case break_ => simp only [spans_break]
-  case symbol => simp only [spans_symbol]
-  case empty => simp only [spans_empty]
-  case args => simp only [spans_args]
+  case boolean => simp only [spans_boolean]; exact Iff.rfl
+  case id => simp only [spans_id]; exact Iff.rfl
+  case number => simp only [spans_number]; exact Iff.rfl
+  case string => simp only [spans_string]; exact Iff.rfl
+  case continue_ => simp only [spans_continue]; exact Iff.rfl
+  case break_ => simp only [spans_break]; exact Iff.rfl
+  case symbol => simp only [spans_symbol]; exact Iff.rfl
+  case empty => simp only [spans_empty]; exact Iff.rfl
+  case args => simp only [spans_args]; exact Iff.rfl
   case array => simp only [spans_array]; exact Iff.rfl
-  case dict => simp only [spans_dict]
-  case binop => simp only [spans_binop]
-  case unop => simp only [spans_unop]
-  case codeblock => simp only [spans_codeblock]
-  case index => simp only [spans_index]
+  case dict => simp only [spans_dict]; exact Iff.rfl
+  case binop => simp only [spans_binop]; exact Iff.rfl
+  case unop => simp only [spans_unop]; exact Iff.rfl
+  case codeblock => simp only [spans_codeblock]; exact Iff.rfl
+  case index => simp only [spans_index]; exact Iff.rfl
   case method => simp only [spans_method]; exact Iff.rfl
   case function => simp only [spans_function]; exact Iff.rfl
-  case assign => simp only [spans_assign]
-  case foreach => simp only [spans_foreach]
-  case ifnode => simp only [spans_ifnode]
-  case elsenode => simp only [spans_elsenode]
-  case ifclause => simp only [spans_ifclause]
-  case ternary => simp only [spans_ternary]
-  case paren => simp only [spans_paren]
+  case assign => simp only [spans_assign]; exact Iff.rfl
+  case foreach => simp only [spans_foreach]; exact Iff.rfl
+  case ifnode => simp only [spans_ifnode]; exact Iff.rfl
+  case elsenode => simp only [spans_elsenode]; exact Iff.rfl
+  case ifclause => simp only [spans_ifclause]; exact Iff.rfl
+  case ternary => simp only [spans_ternary]; exact Iff.rfl
+  case paren => simp only [spans_paren]; exact Iff.rfl
 
 theorem spansL_modifyLast (ls : List Node) (ws : List Token) :
     SpansL s (Node.modifyLast (Node.addWsBase ws) ls) ↔ SpansL s ls := by
